@@ -89,6 +89,20 @@ def extract(repo):
     guard("G_NF_HI", lambda: num.eval(m_nf().group(2)), "")
     guard("G_NF_IDX", lambda: num.eval(num.find(r"fn\s+parse_floating_normal_fast.*?let\s+idx\s*=\s*exp10\s*\+\s*([^;]+);").group(1)),
           "parse_floating_normal_fast: POWER_OF_FIVE_128[exp10 + G_NF_IDX]")
+    # --- widest SIMD block read from the (padded) input: [ui]8xN::from_slice_unaligned_unchecked, const LANES
+    def max_block():
+        widths = []
+        for rel in ("src/parser.rs", "src/util/string.rs", "src/util/unicode.rs"):
+            try:
+                t = Src(repo, rel).text
+            except OSError:
+                continue
+            widths += [int(x) for x in re.findall(r"\b[ui]8x(\d+)::from_slice_unaligned_unchecked", t)]
+            widths += [int(x) for x in re.findall(r"\bconst\s+LAN[E]?S\s*:\s*usize\s*=\s*(\d+)\s*;", t)]
+        if not widths:
+            raise LookupError("no SIMD block load found")
+        return max(widths)
+    guard("G_MAX_BLOCK", max_block, "widest block the scanners load from the input in one go (src/parser.rs, src/util/string.rs): must fit into the padding behind the text")
     return out, missing
 
 def main():
